@@ -114,6 +114,56 @@ theorem aggregates_no_crash (v : Val N) :
     · unfold finiteOr; nocrash
   · unfold libMerge; nocrash
 
+/-! ### more of the library: conversions, argument processing, matchers -/
+
+/-- string conversion (`$string`, `&`) reports a library error for non-finite numbers, never a crash -/
+theorem stringify_no_crash (v : Val N) (o : Option (Val N)) :
+    NoCrash (stringOf v) ∧ NoCrash (stringifyO o) := by
+  have h : ∀ v : Val N, NoCrash (stringOf v) := by
+    intro v; unfold stringOf; nocrash
+  refine ⟨h v, ?_⟩
+  unfold stringifyO
+  cases o with
+  | none => exact noCrash_ok _
+  | some v => exact h v
+
+/-- converting the arguments of a built-in to its Go parameter types reports ArgType, never a crash:
+    any value in any argument position (type-chaotic programs) -/
+theorem processArgs_no_crash (params : List PT) (i : Nat) (argv : List (Option (Val N))) :
+    NoCrash (processArgs params i argv) := by
+  induction argv generalizing i with
+  | nil => unfold processArgs; exact noCrash_ok _
+  | cons a rest ih =>
+    unfold processArgs
+    simp only []
+    split
+    · apply noCrash_err; rfl
+    · exact noCrash_map _ _ (ih (i + 1))
+
+/-- `$max` / `$min` on anything -/
+theorem maxmin_no_crash (v : Val N) : NoCrash (libMax v) ∧ NoCrash (libMin v) := by
+  have hn : ∀ fn, NoCrash (numbersOf fn v) := by
+    intro fn; unfold numbersOf; nocrash
+  constructor
+  · unfold libMax
+    apply noCrash_bind _ _ (hn _)
+    intro ns; nocrash
+  · unfold libMin
+    apply noCrash_bind _ _ (hn _)
+    intro ns; nocrash
+
+/-- `$number` on any string and `$formatBase` with any radix (numbers at the edges of the number grammar) -/
+theorem number_text_no_crash (s : String) (x : N) (base : Option N) :
+    NoCrash (libNumberStr (N := N) s) ∧ NoCrash (libFormatBase x base) := by
+  constructor
+  · unfold libNumberStr; simp only []; nocrash
+  · unfold libFormatBase; simp only []; nocrash
+
+/-- reading a user-supplied match object (a function used as a matcher may return anything) -/
+theorem readMatch_no_crash (v : Val N) : NoCrash (readMatch v) := by
+  unfold readMatch; nocrash
+
+
 /-! ### regenerated fact: the evaluator's type switch handles every node type -/
 
 /-- the node types of the model's syntax tree, by their jparse names -/
